@@ -5,6 +5,7 @@ CFG = {
     "hooks": True,
     "theorems": [
         "Leptos.Keyed.C11_build_wf",
+        "Leptos.Keyed.C11_hydrate_wf",
         "Leptos.Keyed.C11_unpack_complete",
         "Leptos.Keyed.C11_unpack_complete_diff",
         "Leptos.Keyed.C11_group_complete",
@@ -12,6 +13,7 @@ CFG = {
         "Leptos.Keyed.C11_identity",
         "Leptos.Keyed.C11_set_index",
         "Leptos.Keyed.C11_identity_nodes_leave",
+        "Leptos.Keyed.C11_retained_row_state_kept",
         "Leptos.Keyed.C11_settled_monotone",
         "Leptos.Keyed.C11_dom_order",
         "Leptos.Keyed.C11_history",
@@ -52,7 +54,10 @@ CFG = {
             "0..2 siblings on each side, in four modes: keyed() with one of 15 item shapes (1..3 elements, text nodes, `()`/`None` members, "
             "Vec fragments, a static keyed list as the item), a fifth of them built unmounted (parent = None) and mounted later before an "
             "existing sibling; nested keyed lists whose inner lists are updated on their own; <ForEnumerate> over a signal; <ForEnumerate> "
-            "over a keyed store field (reactive_stores KeyedSubfield, rows written through the write guard or `.set`, labels through AtKeyed). "
+            "over a keyed store field (reactive_stores KeyedSubfield, rows written through the write guard or `.set`, labels through AtKeyed); "
+            "keyed() rendered to HTML, parsed into the native DOM and hydrated (list first / between siblings / alone). Every <For>/<ForEnumerate> "
+            "row body creates row-local state (RwSignal, StoredValue, Memo, the effect rendering the memo) that is written between updates (`bump`) "
+            "and read back after every update. "
             "Ops: update (reverse/rotate/swap/remove/insert/clear/front-insert-move/shuffle/replace/append/move-one/random/"
             "reverse-behind-new/drop-front-pull), sib (insert_before_this), unmount, mount <anchor>, remount, inner, label; distinct = distinct "
             "op lines of a case; non-trivial = every case (each performs at least one list operation). THOROUGH tier additionally: every ordered pair of "
@@ -65,7 +70,8 @@ CFG = {
         "on_cleanup as the unmount observation and the index signal read back after every update",
     ],
     "modelled": ["tachys::view::keyed::{diff, group_adjacent_moves, unpack_moves, apply_diff}", "Keyed::{build, rebuild}",
-                 "KeyedState::{mount, unmount, insert_before_this, elements, parent}", "VecExt::get_next_closest_mounted_sibling",
+                 "KeyedState::{mount, unmount, insert_before_this, elements, parent}", "Keyed::hydrate (parent, rows, marker) followed by rebuilds",
+                 "leptos For / ForEnumerate: one Owner per row (row-local signals, stored values, memos, effects live and die with the item state)", "VecExt::get_next_closest_mounted_sibling",
                  "Mountable of text nodes, `()`, Option/Either placeholders, Vec fragments and nested KeyedState as item blocks",
                  "<ForEnumerate> over reactive_stores KeyedSubfield::into_iter / AtKeyed (keys and labels per row)",
                  "Mountable for elements and tuples of elements (mount / unmount / insert_before_this)",
